@@ -4346,6 +4346,10 @@ impl Interpreter {
 
         // Iterate: call next() until done is true
         let mut values = Vec::new();
+        // Values already produced are referenced only from `values` while later next() calls
+        // run script code and allocate: keep them rooted for the duration of the iteration.
+        // (The caller must store the returned values before allocating again.)
+        let values_guard = self.heap.create_guard();
         let next_key = PropertyKey::String(self.intern("next"));
 
         loop {
@@ -4396,6 +4400,7 @@ impl Interpreter {
                     .unwrap_or(JsValue::Undefined)
             };
 
+            iter_value.guard_by(&values_guard);
             values.push(iter_value);
         }
 
